@@ -16,7 +16,7 @@ RULE = (
     "structure: every module tree over containers {Sequential, attribute Module, ModuleList, ModuleDict} and leaves {Linear, Conv2d, LayerNorm, ReLU, Embedding, "
     "BatchNorm2d, Identity}: single leaf, one container with 1..3 leaves (7^k), and two-level nestings (leaves {Linear,Conv2d,LayerNorm,ReLU}); x modules filter {None, every subset of the "
     "eligible modules, a non-eligible module} x weights {qint8,qint4} x activations {None,qint8} x dtype {f32,f16}; behaviour: Linear in/out {1,3,16,48,160,256} x bias; Conv2d kernel x stride x "
-    "padding (ints, tuples, 'same', 'valid') x dilation x groups x padding_mode x bias (combinations torch rejects are skipped); LayerNorm normalized_shape x affine x bias; x 6 weight qtypes x "
+    "padding (ints, tuples, 'same', 'valid') x dilation x groups x padding_mode x bias (combinations torch rejects are skipped); LayerNorm normalized_shape x affine x bias x eps {1e-5,1e-3,1e-12} x {unit, low-variance} inputs; x 6 weight qtypes x "
     "activations {None,qint8,e4m3,e5m2} x dtypes x {float input, already quantized input} x 2 batch shapes. Non-trivial = trees with at least one eligible module / behaviour cases with a non-zero output."
 )
 ASSUMPTIONS = [
@@ -321,6 +321,8 @@ def _conv_task(task, out):
     for kernel, stride, padding, dilation, groups, pmode, bias in itertools.product(
         (1, 3, (2, 3)), (1, 2, (2, 1)), (0, 1, (1, 2), "same", "valid"), (1, 2), (1, 2, cin), ("zeros", "reflect", "replicate", "circular"), (True, False)
     ):
+        if tier == "quick" and dtname != "float32" and (dilation != 1 or pmode in ("reflect", "replicate") or stride == 2):
+            continue  # quick tier: the full hyper-parameter product runs in float32, a sub-product in the half precisions
         try:
             fm = nn.Conv2d(cin, 2 * groups if groups != cin else cin, kernel, stride=stride, padding=padding, dilation=dilation, groups=groups, bias=bias, padding_mode=pmode).to(dt)
             _fill(fm.weight)
@@ -349,9 +351,9 @@ def _layernorm_task(task, out):
     dtname = task["dt"]
     dt = num.DTYPES[dtname]
     only = task.get("only")
-    for nshape, affine, bias in itertools.product(((6,), (3, 6)), (True, False), (True, False)):
+    for nshape, affine, bias, eps in itertools.product(((6,), (3, 6)), (True, False), (True, False), (1e-5, 1e-3, 1e-12)):
         try:
-            fm = nn.LayerNorm(nshape, elementwise_affine=affine, bias=bias).to(dt)
+            fm = nn.LayerNorm(nshape, eps=eps, elementwise_affine=affine, bias=bias).to(dt)
         except TypeError:
             continue
         if affine:
@@ -360,13 +362,14 @@ def _layernorm_task(task, out):
                 _fill(fm.bias, 2)
         for aname in num.Q8:
             for qinput in (False, True):
-                for bshape in ((2,), (2, 2)):
-                    c = [list(nshape), affine, bias, aname, qinput, list(bshape)]
+                for bshape, amp in (((2,), 1.0), ((2, 2), 1.0), ((2,), 0.01)):
+                    c = [list(nshape), affine, bias, eps, aname, qinput, list(bshape), amp]
                     if only and only != c:
                         continue
-                    x = _input(bshape + ((3, 6) if len(nshape) == 2 else (6,)), dt)
+                    # amp 0.01: low-variance rows, where the value of eps matters
+                    x = (_input(bshape + ((3, 6) if len(nshape) == 2 else (6,)), dt).to(torch.float64) * amp).to(dt)
                     fields = {"kind": "layernorm", "activations": aname, "dtype": dtname, "qinput": qinput, "affine": affine}
-                    _behaviour(fm, x, None, aname, dtname, qinput, f"LayerNorm({nshape},affine={affine},bias={bias}) a={aname} {dtname} qinput={qinput}", dict(task, only=c), fields, out, nshape[-1])
+                    _behaviour(fm, x, None, aname, dtname, qinput, f"LayerNorm({nshape},eps={eps},affine={affine},bias={bias}) a={aname} {dtname} qinput={qinput} amp={amp}", dict(task, only=c), fields, out, nshape[-1])
 
 
 def _run(task):
